@@ -149,7 +149,7 @@ def tasks_for(tier, seed):
             if x86:
                 # opcode sweep: every one- and two-byte opcode x every ModRM byte under each width-changing prefix
                 tails = ("0102030405060708", "24f0e0d0c0b0a090")
-                pres = ["", "66", "67", "f3", "f2", "6667"] + (["48", "41", "6648", "4f"] if arch == "amd64" else [])
+                pres = ["", "66", "67", "f3", "f2", "6667", "67f3", "67f2", "66f3", "66f2", "f367", "f267", "6667f3", "2ef3", "f0"] + (["48", "41", "6648", "4f", "f348", "f248", "67f348", "67f248", "66f348"] if arch == "amd64" else [])
                 for pre in pres:
                     for esc in ("", "0f"):
                         its = [f"{pre}{esc}{op:02x}{modrm:02x}{tails[(op + modrm) & 1]}" for op in range(256) for modrm in (range(256) if (T or pre in ("", "66", "67")) else range(0, 256, 9))]
